@@ -153,6 +153,93 @@ def r_write_then_publish(ctx):
     ctx.expect_min(4)
 
 
+@rule('R-offset-coherent', 'the in-memory end offset of the file journal and the end offset published in the file header agree '
+                           'whenever a record is written and whenever an operation returns: a store to one is paired with a publish of '
+                           'the same value before any record write or return')
+def r_offset_coherent(ctx):
+    P = ctx.P
+    jp = journal_parts(ctx)
+    fj, fa, pub, off = jp['fj'], jp['file_attr'], jp['publish'], jp['offset_attr']
+    hdr = jp['publish_const']
+
+    def record_write(m, c):
+        return isinstance(c.func, ast.Attribute) and c.func.attr == 'write' and P.self_attr(c.func.value, m.self_name) == fa \
+            and c.args and not (isinstance(c.args[0], ast.Name) and c.args[0].id == hdr)
+    writers = [m for m in P.methods_of(fj) if m is not pub and any(record_write(m, c) for c in P.calls_in(m))]
+    ctx.require(writers, 'no record writer in the file journal')
+    n_checked = 0
+    for m in P.methods_of(fj):
+        if m.name == '__init__' or m is pub:
+            continue        # the constructor reads the published offset (R-record-layout, reader loop)
+        stores = [st for st, k in U.assigns_to_attr(P, m, off)]
+        ex = U.explorer(ctx, m)
+        cfg = ex.cfg
+        pubs = [(U.node_containing(cfg, c), c) for c in P.calls_in(m) if pub in P.resolve_call(m, c).targets and c.args]
+        if not stores and not pubs:
+            continue
+        res = U.full_run(ctx, m)
+        offt = ex.tb.term(U.parse_expr('self.%s' % off))
+        coherent = [n.id for n, c in pubs if res.reached(n.id) and U.must(ctx, res, n.id, ('eq', ex.tb.term(c.args[0]), offt))[0]]
+        sinks = [cfg.exit.id]
+        for n in cfg.nodes:
+            if n.kind in ('stmt', 'cond') and n.ast is not None:
+                for c in [x for x in ast.walk(n.ast) if isinstance(x, ast.Call)]:
+                    if record_write(m, c) or any(t in writers for t in P.resolve_call(m, c).targets):
+                        sinks.append(n.id)
+        store_nodes = [U.node_containing(cfg, st).id for st in stores]
+        for st in stores:
+            sn = U.node_containing(cfg, st)
+            inst = '%s: `%s` is published before the next record write / return' % (m.qualname, unparse(st))
+            n_checked += 1
+            ctx.tick()
+            # (a) the same constant was published on every path to the store
+            same = [n.id for n, c in pubs if unparse(c.args[0]) == unparse(st.value) and not any(isinstance(x, ast.Name) and not x.id.isupper() for x in ast.walk(st.value))
+                    and not any(P.self_attr(x, m.self_name) for x in ast.walk(st.value))]
+            pre = bool(same) and sn.id not in cfg.reachable_from(cfg.entry.id, avoid=same, follow_exc=False)
+            # (b) or a publish of the in-memory value follows before any sink
+            starts = [d for d, l in sn.succ if not (isinstance(l, tuple) and l[0] == 'exc')]
+            reach = set()
+            for d in starts:
+                if d in coherent:
+                    continue
+                if d in sinks:
+                    reach.add(d)
+                    continue
+                reach |= cfg.reachable_from(d, avoid=coherent, follow_exc=False)
+            hit = [i for i in sinks if i in reach and i != sn.id]
+            if pre or not hit:
+                ctx.ok(inst, m.loc(st), 'published before (same constant)' if pre else 'a publish of the in-memory end offset dominates every later record write and the normal exit')
+            else:
+                tgt = cfg.nodes[hit[0]]
+                ctx.violation('%s:end-offset-stored-not-published' % m.qualname, m.loc(st),
+                              'after `%s` the journal %s while the file header still publishes the previous end offset: a kill at that point leaves a published range '
+                              'whose bytes were overwritten (the reopened journal is not a range of the previous entries)'
+                              % (unparse(st), 'returns' if tgt.id == cfg.exit.id else 'writes records (`%s`)' % unparse(tgt.ast)[:50]), instance=inst)
+        for n, c in pubs:
+            if n.id in coherent or not res.reached(n.id):
+                continue
+            inst = '%s: `%s` (not the in-memory end offset at that point) is followed by the matching store' % (m.qualname, unparse(c))
+            n_checked += 1
+            ctx.tick()
+            starts = [d for d, l in n.succ if not (isinstance(l, tuple) and l[0] == 'exc')]
+            reach = set()
+            for d in starts:
+                if d in store_nodes or d in coherent:
+                    continue
+                if d in sinks:
+                    reach.add(d)
+                    continue
+                reach |= cfg.reachable_from(d, avoid=store_nodes + coherent, follow_exc=False)
+            hit = [i for i in sinks if i in reach]
+            if hit:
+                ctx.violation('%s:end-offset-published-not-stored' % m.qualname, m.loc(c),
+                              '`%s` publishes an end offset that differs from the in-memory one, and the journal can %s before the in-memory offset is brought in line'
+                              % (unparse(c), 'return' if hit[0] == cfg.exit.id else 'write records'), instance=inst)
+            else:
+                ctx.ok(inst, m.loc(c), 'every path to a record write / the normal exit passes a store of the in-memory offset or a publish of it')
+    ctx.expect_min(2)
+
+
 @rule('R-record-layout', 'the byte layout constants of the journal reader, writer and tail-drop agree with the struct '
                          'formats: length field size, header size, record framing (size + body + size)')
 def r_record_layout(ctx):
